@@ -41,7 +41,7 @@ def pil_names(text):
     out = {"seq": [], "sup": [], "strand": [], "struct": []}
     for s in pilio.read_pil(text):
         if s["k"] == "seq":
-            out["seq"].append([s["name"], len(s["tmpl"])])
+            out["seq"].append([s["name"], len(s["tmpl"]), s["tmpl"]])
         elif s["k"] in ("sup", "strand", "struct"):
             out[s["k"]].append(s["name"])
     return out
@@ -52,7 +52,7 @@ def snap_names(tree, signals_too=True):
     def walk(t):
         if t["kind"] == "comp":
             c = t["comp"]
-            out["seq"] += [[c["pfx"] + e["name"], e["len"]] for e in c["seqs"] if not e["sup"] and e["len"] > 0]
+            out["seq"] += [[c["pfx"] + e["name"], e["len"], e["const"]] for e in c["seqs"] if not e["sup"] and e["len"] > 0]
             out["sup"] += [c["pfx"] + e["name"] for e in c["seqs"] if e["sup"] and e["len"] > 0]
             out["strand"] += [c["pfx"] + e["name"] for e in c["strands"]]
             out["struct"] += [c["pfx"] + e["name"] for e in c["structs"]]
@@ -61,7 +61,7 @@ def snap_names(tree, signals_too=True):
                 walk(s)
             lens = dict(map(tuple, t["lengths"]))
             for n, _ in t["signals"]:
-                out["seq"].append([t["pfx"] + n, lens[n]])
+                out["seq"].append([t["pfx"] + n, lens[n], "N" * lens[n]])
     walk(tree)
     return out
 
@@ -86,9 +86,21 @@ def run(st, tier, seed):
         if b is None:
             continue
         inp = {"files": b.texts, "entry": b.entry, "includes": b.includes}
+        # half of the compiles use a --fixed file that narrows some constraints (the saved state must carry them)
+        fixed_text = None
+        if rng.random() < 0.5:
+            r0 = impl.compile_bundle(b, "pil")
+            if r0["ok"]:
+                cands = [s_ for s_ in pilio.read_pil(r0["text"]) if s_["k"] == "seq" and "_Anon" not in s_["name"] and s_["tmpl"]]
+                rng.shuffle(cands)
+                lines_ = []
+                for s_ in cands[:rng.randint(1, 3)]:
+                    lines_.append("sequence %s = %s" % (s_["name"], "".join(rng.choice(pipeline.GROUP[c_]) for c_ in s_["tmpl"])))
+                fixed_text = "\n".join(lines_) + "\n"
+                res.count("with-fixed-file")
         with core.scratch("pepper_c16_") as d:
             try:
-                out = pipeline.run_pipeline(b, rng, d)
+                out = pipeline.run_pipeline(b, rng, d, fixed_text=fixed_text)
             except pipeline.Stage as e:
                 res.count("skipped:" + e.stage); continue
             res.evaluations += 1
@@ -102,6 +114,9 @@ def run(st, tier, seed):
                 from peppercompiler.system_class import load_file
                 with quiet():
                     mem = load_file(b.entry, [], prefix="", includes=list(b.includes) if b.includes else None)
+                    if fixed_text is not None:
+                        for type_, name_, fseq in pc.load_fixed("fixed.fix"):
+                            mem.seqs[name_].fix_seq(fseq)
                 s_mem = snapmod.snap(mem)
                 with quiet():
                     pf.apply_design(mem, read_design("out.mfe"))
@@ -135,7 +150,8 @@ def run(st, tier, seed):
                 res.violations.append({"what": "finishing from the reloaded .save differs from finishing from memory", "input": inp,
                                        "observed": {"subprocess_ok": r2.returncode == 0}, "sig": "C16:finish-differs", "cmd": "pepper-finish out"})
             if drv is not None:
-                rq = progen.compile_request(b, "pil", anon=out["anon_before"]); rq["op"] = "snapshot"
+                fx = [] if fixed_text is None else [{"kind": "sequence", "name": l_.split()[1], "seq": l_.split()[3]} for l_ in fixed_text.strip().split("\n")]
+                rq = progen.compile_request(b, "pil", anon=out["anon_before"], fixed=fx); rq["op"] = "snapshot"
                 reqs.append(rq); meta.append((inp, s_re["tree"]))
             if len(res.samples) < 1:
                 res.sample({"source": b.texts, "snapshot_head": json.dumps(s_re["tree"])[:400]})
